@@ -1,0 +1,35 @@
+//go:build verif
+
+// Contracts for package core (comment-only; read by /verif/govc).
+
+package core
+
+//@ struct pipeIDAllocator
+//@   lock lock level 90
+//@   guarded_by lock: used next
+//@
+//@ struct pipeList
+//@   lock lock level 90
+//@   guarded_by lock: pipes
+//@
+//@ struct pipe
+//@   lock lock level 10
+//@   guarded_by lock: added closing
+//@   immutable: id p l d s
+//@   nullable: l d
+//@
+//@ struct socket
+//@   lock Mutex level 30
+//@   guarded_by Mutex: closed reconnMinTime reconnMaxTime maxRxSize dialAsynch listeners dialers pipehook
+//@   immutable: proto
+//@
+//@ struct dialer
+//@   lock Mutex level 40
+//@   guarded_by Mutex: closed active asynch redialer reconnTime reconnMinTime reconnMaxTime closeq
+//@   immutable: d s addr
+//@   nullable: redialer
+//@
+//@ struct listener
+//@   lock Mutex level 40
+//@   guarded_by Mutex: closed active
+//@   immutable: l s addr
